@@ -24,19 +24,22 @@ theorem shiftLow_pre (p : Array UInt8) (e : RangeEncoder) : (pre p e).shiftLow =
     · rfl
     · simp only [Array.push_append, pushN_append]
 
+theorem narrow_pre (p : Array UInt8) (q : Nat) (e : RangeEncoder) (b : Nat) :
+    narrow q (pre p e) b = pre p (narrow q e b) := by
+  unfold narrow pre
+  split <;> rfl
+
+theorem normalize_pre (p : Array UInt8) (e : RangeEncoder) : normalize (pre p e) = pre p (normalize e) := by
+  unfold normalize
+  have hw : (pre p e).width = e.width := rfl
+  rw [hw]
+  split
+  · exact shiftLow_pre p { e with width := (e.width * 256) &&& 0xFFFFFFFF }
+  · rfl
+
 theorem encodeBit_pre (p : Array UInt8) (q : Nat) (e : RangeEncoder) (b : Nat) :
     encodeBit q (pre p e) b = ((encodeBit q e b).1, pre p (encodeBit q e b).2) := by
-  unfold encodeBit
-  dsimp only
-  by_cases hb : b = 0
-  · simp only [hb, if_true]
-    split
-    · exact congrArg (Prod.mk _) (shiftLow_pre p _)
-    · rfl
-  · simp only [hb, if_false]
-    split
-    · exact congrArg (Prod.mk _) (shiftLow_pre p _)
-    · rfl
+  rw [encodeBit_eq, encodeBit_eq, narrow_pre, normalize_pre]
 
 theorem encodeByteLoop_pre (p : Array UInt8) (base b : Nat) : ∀ (n index : Nat) (probs : Array Nat)
     (e : RangeEncoder),
@@ -59,18 +62,17 @@ theorem encodeRawLoop_pre (p : Array UInt8) : ∀ (src : List UInt8) (pos : Nat)
   | nil => intros; rfl
   | cons c rest ih =>
     intro pos prev pp lp e
-    simp only [encodeRawLoop, encodeByte]
-    rw [encodeBit_pre]
-    dsimp only
-    rw [encodeByteLoop_pre]
-    exact ih _ _ _ _ _
+    rw [encodeRawLoop, encodeRawLoop]
+    simp only [encodeByte, encodeBit_pre, encodeByteLoop_pre, ih]
 
 theorem encodeRaw_prefix (dst : Array UInt8) (src : List UInt8) :
     encodeRaw dst src = dst ++ encodeRaw #[] src := by
   have h0 : ({ dst := dst, low := 0, width := 0xFFFFFFFF, pendingHead := 0, pendingExtra := 0 } : RangeEncoder)
       = pre dst encInit := by
     unfold pre encInit; simp
-  unfold encodeRaw
+  show (encodeRawLoop src 0 0 initPosProbs initLitProbs
+      { dst := dst, low := 0, width := 0xFFFFFFFF, pendingHead := 0, pendingExtra := 0 }).flush.dst
+    = dst ++ (encodeRawLoop src 0 0 initPosProbs initLitProbs encInit).flush.dst
   rw [h0, encodeRawLoop_pre]
   unfold RangeEncoder.flush
   rw [shiftLow_pre, shiftLow_pre, shiftLow_pre, shiftLow_pre, shiftLow_pre]
